@@ -1055,7 +1055,7 @@ class Median(GroupByShift):
     @functools.cached_property
     def npartitions(self):
         npartitions = self.frame.npartitions
-        if self.split_every is not None:
+        if self.split_every:
             npartitions = max(npartitions // self.split_every, 1)
         return npartitions
 
